@@ -237,6 +237,11 @@ pub fn gen_rate(r: &mut Rng) -> f64 {
 
 pub fn gen_quote_val(r: &mut Rng, dual_prob: f64, k: usize) -> QuoteVal {
     let v = gen_rate(r);
+    gen_quote_val_at(r, dual_prob, k, v)
+}
+
+/// as gen_quote_val but with a given real value (to replace a quote by one of equal value and other derivative content)
+pub fn gen_quote_val_at(r: &mut Rng, dual_prob: f64, k: usize, v: f64) -> QuoteVal {
     if r.chance(dual_prob) {
         let nv = 1 + r.usize(2);
         // own variable names; some deliberately shared between quotes
